@@ -4,7 +4,8 @@ Every case is one real Manager call on a capturing session with every capability
 message is read by an independent reader (xml.etree/expat) and compared (a) with the model's tree, (b) with the
 oracle: the Appendix-F schema of the operation and path assertions for every caller string / fragment, (c) with the binding
 oracle: every namespace binding in scope at an element of a caller document (and every entry of an XPath filter's prefix map)
-is in scope at that element of the request (tools/harness/nsscope.py; model coq/Model/NsScope.v, runner fn 8)."""
+is in scope at that element of the request (tools/harness/nsscope.py; model coq/Model/NsScope.v, runner fn 8).
+The carries theorems (Spec/Template.v, CarriesBase.v, CarriesVendor.v; runner fn 10 / 11) are corresponded by tools/harness/carries.py."""
 import json, os, glob
 ID = 'C07'
 COQ_ROOTS = ['Props/C07.v', 'GenProps/Caps_consts.v', 'GenProps/Gating_consts.v', 'GenProps/Builders_consts.v', 'GenProps/Vendor_consts.v']
@@ -22,7 +23,10 @@ RULE = ('case = (device profile, operation, argument record). Operations: the 19
         'Namespace bindings: 30% of the generated fragment elements declare 1-2 prefixes that no element or attribute name uses (ianaift, if, oc-if, a non-ASCII '
         'prefix) and carry QName / path content that depends on them (identityref, instance-identifier); XPath filters with a prefix map of 1-3 entries whose '
         'select string uses the prefixes; fixed cases on all 14 profiles (XPath prefix map, identityref config as str and element, subtree filter) and one per class '
-        'of the open findings; every case with a caller document is read with a scope-tracking expat reader and compared element by element.')
+        'of the open findings; every case with a caller document is read with a scope-tracking expat reader and compared element by element. '
+        'Carries (tools/harness/carries.py): fresh draws of the same generators (all standard operations x 14 profiles, all 30 vendor classes); the extracted template '
+        'instance wrap (fill (values c) (template (erase c))) (runner fn 10 / 11) is compared with the captured request, holes = 0..n-1; frame oracle on the implementation '
+        'alone: two calls that differ in ONE caller value of the same class give requests that differ in exactly one text node / attribute value / element name.')
 ASSUMES = ['vendor classes: Python verdicts int(timeout) (junos commit) and bool(comment.strip()) (sros commit) are inputs of the model; caller fragments of vendor calls do not use the base namespace (that class is the open finding envelope_namespace_binding_shadowed, one explicit huawei case); junos timeouts within +-10^12 (binary64 division is exact there)',
            'the server advertises every capability (gating is C09); with-defaults lists the four RFC 6243 modes',
            'lxml verdicts on element names are oracle inputs (catalogue); documents are parsed for the model by the independent reader',
@@ -930,6 +934,8 @@ def run(ctx):
     escape_micro(ctx, ctx.rng, 300 if ctx.tier == 'quick' else 5000)
     run_cases(ctx, shadow_cases())
     run_cases(ctx, gen_cases(ctx.rng, ctx.tier))
+    from harness import carries          # C07_carries: template instances vs captured requests; one-argument-varied pairs (frame oracle)
+    carries.run(ctx)
 
 def search(ctx, seeds):
     from harness import vendorops
@@ -947,10 +953,14 @@ def search(ctx, seeds):
         except Exception:
             continue
         if j and not findings.covered(ID, j[1]): return dict(case=json.loads(key_of(case)), what=j[0], sig=j[1], expected='schema instance / local rejection', actual={'exc': r['exc'], 'sent': [x[:400] for x in r['sent']]})
-    return None
+    from harness import carries
+    return carries.search(ctx)
 
 def reproduce(finding):
     case = finding['witness']
+    if 'carries_pair' in case:
+        from harness import carries
+        return carries.reproduce(case)
     if 'vop' in case:
         from harness import vendorops
         return vendorops.judge(case)[1] is not None
@@ -970,6 +980,9 @@ def replay(doc):
     if doc.get('case', {}).get('check') == 'enum_with_defaults':
         return _replay_enum(doc['case'])
     case = doc['case']
+    if 'carries_pair' in case:
+        from harness import carries
+        return carries.replay(case)
     if 'vop' in case:
         from harness import vendorops
         r, j = vendorops.judge(case)
